@@ -377,6 +377,9 @@ def _run_sync(kind, cfg, ops, impl, bufopt=()):
         peer = socket.socket(fam, socket.SOCK_DGRAM)
         peer.bind((host, 0))
         ours = socket.socket(fam, socket.SOCK_DGRAM)
+        if fam == socket.AF_INET6:
+            with contextlib.suppress(OSError):
+                ours.setsockopt(socket.SOL_SOCKET, socket.SO_RCVBUF, 4 * 1024 * 1024)
         ours.bind((host, 0))
         ours.connect(peer.getsockname())
         peer.connect(ours.getsockname())
@@ -390,7 +393,14 @@ def _run_sync(kind, cfg, ops, impl, bufopt=()):
                 peer.send(op[1])
                 out.append([])
             elif op[0] == 8:
-                peer.send(big_datagram(op[1], op[2]))
+                # a real 64 KiB datagram over loopback can be dropped by the kernel (receive buffer, memory pressure):
+                # never let that look like a disagreement -- it is acknowledged by the receiving socket becoming
+                # readable (large cases keep at most one datagram queued) and re-sent otherwise
+                import select
+                for _attempt in range(5):
+                    peer.send(big_datagram(op[1], op[2]))
+                    if select.select([ours], [], [], 10.0)[0]:
+                        break
                 out.append([])
             elif op[0] == 9:
                 try:
@@ -965,12 +975,11 @@ def _large_cases(rng, thorough):
             for i, n in enumerate(sizes):
                 if n < 100:
                     d = isolated_make(0, [], impl, canon(_packet(rng, impl)))
-                    ops += [[0, d, isolated_build(0, [], impl, d), True]]
+                    ops += [[0, d, isolated_build(0, [], impl, d), True], [3]]
                 else:
                     token = tokp + b"-%d-%d" % (n, i)
                     big = big_datagram(n, token)
-                    ops += [[8, n, token, isolated_build(0, [], impl, big), isolated_build(0, [], impl, big[:bufsize])]]
-            ops += [[3]] * len(sizes)
+                    ops += [[8, n, token, isolated_build(0, [], impl, big), isolated_build(0, [], impl, big[:bufsize])], [3]]
             yield _mk_case(0, [], ops, impl, ["large", ser[0].decode(), "udp-client-v6"], {"large-datagram"})
 
 
